@@ -112,6 +112,12 @@ def make(kind, form='1d', alt=0):
         return ref.rot2(PI / 2 if not alt else PI)
     if kind == 'T2z':
         return ref.rt(ref.rot2(PI / 2), (3e-15, 2.0 + alt))
+    if kind == 'ang0d':
+        return np.array(0.6 + 0.2 * alt)             # an angle held in a 0-d array (what indexing a 1-D array with [()] or np.asarray(x) gives)
+    if kind == 'ang1':
+        return np.array([0.6 + 0.2 * alt, -0.3])     # a vector of angles
+    if kind == 'qN':
+        return np.array([[1.0, 2.0, -1.0, 0.5], [0.5, 0.5, 0.5, 0.5 + alt], [3.0, 0.0, 0.0, 4.0]])      # N x 4, rows not of unit norm
     if kind == 'bnd':
         return np.array([1.0, -1.0, -1.0, 1.0, 1.0 + alt, -1.0])          # each axis pair given as [max, min] or [min, max]
     if kind == 'so3m':
@@ -341,6 +347,8 @@ def descriptors():
          ('base.slerp/shortest', lambda x, y: __import__('spatialmath.base', fromlist=['slerp']).slerp(x.vec, y.vec, 0.3, shortest=True), ['UQ', 'UQn'], {}),
          ('UnitQuaternion.eq', lambda x, y: x == y, ['UQ', 'UQn'], {}),
          ('Plucker.intersect_plane', lambda l, pl: l.intersect_plane(pl), ['PL', 'PLN'], {}),
+         ('UnitQuaternion(Nx4)', lambda M: sm().UnitQuaternion(M), ['qN'], {}), ('UnitQuaternion(Nx4,norm=False)', lambda M: sm().UnitQuaternion(M, norm=False, check=False), ['qN'], {}),
+         ('Quaternion(Nx4)?', lambda M: sm().Quaternion(list(M)), ['qN'], {}),
          ('Plucker.distance', lambda l, m: l.distance(m), ['PL', 'PL'], {}), ('Plucker.distance/par', lambda l, m: l.distance(m), ['PL', 'PLp'], {}),
          ('Plucker.distance/par', lambda l, m: l.distance(m), ['PLp', 'PL'], {}), ('Plucker.distance/anti', lambda l, m: l.distance(m), ['PL', 'PLa'], {}),
          ('Plucker.distance/meet', lambda l, m: l.distance(m), ['PL', 'PLi'], {}), ('Plucker.commonperp', lambda l, m: l.commonperp(m), ['PL', 'PLi'], {}),
@@ -362,6 +370,22 @@ def descriptors():
          ('UnitQuaternion(SE3)', lambda x: sm().UnitQuaternion(x), ['SE3'], {}), ('UnitQuaternion(R)', lambda R: sm().UnitQuaternion(R), ['R3'], {}),
          ('Twist3(SE3)', lambda x: sm().Twist3(x), ['SE3'], {}), ('UnitDualQuaternion(SE3)', lambda x: sm().UnitDualQuaternion(x), ['SE3'], {}),
          ('SE3.SO3', lambda x: sm().SE3.SO3(x), ['SO3'], {}), ('SpatialInertia', lambda m, c, I: sm().SpatialInertia(m, c, I), ['s', 'v3', 'R3'], {})]
+    for ak in ('ang0d', 'ang1'):
+        for cn in ('SO3', 'SE3', 'UnitQuaternion', 'Twist3'):
+            for fn in ('Rx', 'Ry', 'Rz'):
+                for u in ('rad', 'deg'):
+                    A.append(('%s.%s/%s/%s' % (cn, fn, ak, u), (lambda cn, fn, u: (lambda a: getattr(getattr(sm(), cn), fn)(a, u)))(cn, fn, u), [ak], {}))
+        for u in ('rad', 'deg'):
+            A.append(('UnitQuaternion.AngVec/%s/%s' % (ak, u), (lambda u: (lambda a, v: sm().UnitQuaternion.AngVec(a, v, unit=u)))(u), [ak, 'v3'], {}))
+            A.append(('SO3.AngVec/%s/%s' % (ak, u), (lambda u: (lambda a, v: sm().SO3.AngVec(a, v, unit=u)))(u), [ak, 'v3'], {}))
+            A.append(('SO2/%s/%s' % (ak, u), (lambda u: (lambda a: sm().SO2(a, unit=u)))(u), [ak], {}))
+            A.append(('Twist3.exp/%s/%s' % (ak, u), quiet((lambda u: (lambda x, a: x.exp(a, u)))(u)), ['Tw3', ak], {}))
+            A.append(('Twist2.exp/%s/%s' % (ak, u), quiet((lambda u: (lambda x, a: x.exp(a, u)))(u)), ['Tw2', ak], {}))
+            A.append(('base.getunit/%s/%s' % (ak, u), (lambda u: (lambda a: __import__('spatialmath.base', fromlist=['getunit']).getunit(a, u)))(u), [ak], {}))
+            for fn in ('rotx', 'trotz', 'rot2'):
+                A.append(('base.%s/%s/%s' % (fn, ak, u), (lambda fn, u: (lambda a: getattr(__import__('spatialmath.base', fromlist=[fn]), fn)(a, u)))(fn, u), [ak], {}))
+        A.append(('SE3.interp/%s' % ak, lambda x, a: x.interp(a * 0.5), ['SE3', ak], {}))
+        A.append(('UnitQuaternion.interp/%s' % ak, lambda x, y, a: x.interp(a * 0.5, dest=y), ['UQ', 'UQ', ak], {}))
     for name, f, kinds, consts in A:
         out.append(D('%s/%s' % (name, ','.join(kinds)), f, kinds, consts, site=name.split('/')[0]))
     # 5. binary and augmented operators
